@@ -3,6 +3,7 @@ package props
 import (
 	"bytes"
 	"fmt"
+	"math/big"
 	"os"
 	"time"
 
@@ -34,6 +35,7 @@ type SessScript struct {
 
 // Sess is the interpreter state for a SessScript.
 type Sess struct {
+	nShort int
 	Faults int // randomness faults armed so far
 	Cfg    SessCfg
 	W      *sim.World
@@ -95,8 +97,8 @@ type SentText struct {
 func newSess(sc *SessScript, o *sim.Outcome) *Sess {
 	pa, pb := sc.Cfg.pol()|sc.PolA, sc.Cfg.pol()|sc.PolB
 	w := sim.NewWorld(
-		sim.PartyOpts{Seed: sc.Cfg.SeedA, Pol: pa, KeyI: sc.Cfg.KeyA, Frag: sc.Cfg.FragA, NoErrH: sc.Cfg.NoErrH},
-		sim.PartyOpts{Seed: sc.Cfg.SeedB, Pol: pb, KeyI: sc.Cfg.KeyB, Frag: sc.Cfg.FragB, NoErrH: sc.Cfg.NoErrH})
+		sim.PartyOpts{Seed: sc.Cfg.SeedA, Pol: pa, KeyI: sc.Cfg.KeyA, Frag: sc.Cfg.FragA, NoErrH: sc.Cfg.NoErrH, ShortKeys: sc.Cfg.SkA},
+		sim.PartyOpts{Seed: sc.Cfg.SeedB, Pol: pb, KeyI: sc.Cfg.KeyB, Frag: sc.Cfg.FragB, NoErrH: sc.Cfg.NoErrH, ShortKeys: sc.Cfg.SkB, ShortFrom: 3})
 	s := &Sess{Cfg: sc.Cfg, W: w, Obs: ref.NewObserver(3), o: o}
 	s.Obs.Versions = []int{versionsOf(pa), versionsOf(pb), 3}
 	s.Obs.SendsWS = []bool{pa&sim.PolSendWS != 0, pb&sim.PolSendWS != 0, false}
@@ -250,6 +252,22 @@ func (s *Sess) Exec(op SOp) *sim.Call {
 		p := w.P[who]
 		p.R.FailAt, p.R.FailFor, p.R.FailMode = p.R.Reads()+op.X%16, 1, op.I%2
 		s.Faults++
+	case "garbage":
+		// an encoded message nobody can read arrives: the conversation answers with an error message of its own making
+		// (a well-formed data message under keys nobody has: "unreadable" while encrypted, "not in private" otherwise)
+		ver, st, rt := uint16(3), uint32(0x4711), uint32(0)
+		if w.P[who].Pol&sim.PolV3 == 0 {
+			ver = 2
+		} else if w.P[who].C.IsEncrypted() {
+			st, rt = w.P[who].C.GetTheirInstanceTag(), w.P[who].C.GetOurInstanceTag()
+		}
+		hdr := ref.PutHeader(ver, ref.TypeData, st, rt)
+		body := ref.BuildData(hdr, 0, 1, 1, big.NewInt(int64(7+op.F)), uint64(1+op.L), filler(1, 20+op.L%40, op.F), filler(1, 20, op.F+1), nil)
+		return w.Receive(who, ref.Armor(append(append([]byte{}, hdr...), body...)))
+	case "shortkey":
+		// the next D-H key this party generates has a public value with a zero top byte (a byte shorter on the wire)
+		w.P[who].R.Force40 = append(w.P[who].R.Force40, sim.ShortExps[(op.X+s.nShort)%len(sim.ShortExps)])
+		s.nShort++
 	case "faultsess":
 		// one read of this party's source fails somewhere inside the key exchange that follows
 		p := w.P[who]
